@@ -585,7 +585,7 @@ def replay_verdicts(ctx, tag, recs):
 
 def run_C06(ctx):
     rate = 16 if ctx.quick else 1
-    r = run_tlc(f"{ctx.prop}-verdict", "MC_Verdict", {"Fams": {1, 2, 3, 4, 5, 6}, "Seed": ctx.seed, "Rate": rate},
+    r = run_tlc(f"{ctx.prop}-verdict", "MC_Verdict", {"Fams": {1, 2, 3, 4, 5, 6, 7}, "Seed": ctx.seed, "Rate": rate},
                 invariants=["Inv"], workers=10, timeout=1500)
     if r.violation:
         ctx.violation("MC_Verdict: a verdict is not explained by the named rules", {"kind": "tlc", "output": r.violation[:3000]})
@@ -1214,7 +1214,7 @@ def run_C20(ctx):
             corpus.append({"t": "disasm", "bytes": x["bytes"]})
             spec.append("")
     # verifier inputs
-    r = run_tlc(f"{ctx.prop}-verdict", "MC_Verdict", {"Fams": {1, 2, 3, 4, 5, 6}, "Seed": ctx.seed, "Rate": 64 if ctx.quick else 4},
+    r = run_tlc(f"{ctx.prop}-verdict", "MC_Verdict", {"Fams": {1, 2, 3, 4, 5, 6, 7}, "Seed": ctx.seed, "Rate": 64 if ctx.quick else 4},
                 invariants=["Inv"], workers=10, timeout=1500)
     ctx.add_tlc("MC_Verdict (corpus)", r)
     for x in r.replay:
